@@ -64,6 +64,7 @@ MUTATING_FUNCS = {  # name -> index of the argument written
     'numpy.copyto': 0, 'numpy.put': 0, 'numpy.place': 0, 'numpy.putmask': 0, 'numpy.fill_diagonal': 0,
     'random.shuffle': 0, 'numpy.random.shuffle': 0, 'setattr': 0, 'delattr': 0, 'object.__setattr__': 0,
     'heapq.heappush': 0, 'heapq.heappop': 0, 'bisect.insort': 0,
+    'next': 0,  # advances the iterator it is given: a write to that object (a fresh iter(...) has no owner)
 }
 IMMUTABLE_ANN = {'int', 'float', 'str', 'bool', 'bytes', 'None', 'complex', 'sc.Unit', 'Unit', 'sc.DType',
                  'DType', 'type', 'Path', 'os.PathLike', 'PathLike', 'Callable', 'Byteorder', 'datetime',
